@@ -65,6 +65,14 @@ class TrackingStream:
         self.pos = end
         return out
 
+    @property
+    def in_waiting(self):
+        """pyserial's name for 'bytes that have arrived and can be read without waiting':
+        with bursts, the next burst (it arrived just after a read timed out)."""
+        if self._ends is None:
+            return len(self.data) - self.pos
+        return self._limit() - self.pos
+
     def readline(self):
         self._tick()
         lim = self._limit()
@@ -207,7 +215,13 @@ class ScriptedSocket(socket.socket):
         self.sent = []
         self.truncated = 0
 
+    def close(self):
+        self.closed_locally = True
+        super().close()
+
     def recv(self, bufsize, *flags):  # noqa
+        if getattr(self, "closed_locally", False):
+            raise OSError(9, "Bad file descriptor")
         self.recv_calls += 1
         if self.recv_calls > 4 * len(self._data) + 64:
             raise HarnessHang("recv called without progress")
